@@ -217,6 +217,15 @@ struct Machine
     return false;
   }
 
+  // may element idx of the wrapper in slot s be touched?  (a view over a wrapper's storage can be partly valid: the owner
+  // shrank; the model decides per element, so does this)
+  bool elemOk(Slot<T> &s, long idx)
+  {
+    if (idx < 0 || (size_t)idx >= s.base()->size()) return false;
+    if (s.kind == 'V' && s.vk == -2) return __asan_region_is_poisoned(s.v->data() + idx, sizeof(T)) == nullptr;
+    return !stale(s);
+  }
+
   // everything the property talks about, read from the real object
   std::string show(Slot<T> &s)
   {
@@ -453,6 +462,14 @@ struct Machine
       sl[i].o->resize((size_t)L(2), Codec<T>::enc(L(3)));
       return true;
     }
+    if (op == "rr") {
+      // resize(n, w_j[idx]): the element itself is passed, by reference (no copy on the caller's side)
+      long i = L(1), j = L(3), idx = L(4);
+      if (!used(i) || sl[i].kind != 'O' || !used(j) || !elemOk(sl[j], idx)) return false;
+      const T &ref = (*sl[j].base())[(size_t)idx];
+      sl[i].o->resize((size_t)L(2), ref);
+      return true;
+    }
     if (op == "cc" || op == "mc") {
       long i = L(1), j = L(2);
       if (!freeSlot(i) || !used(j)) return false;
@@ -472,7 +489,7 @@ struct Machine
     }
     if (op == "w") {
       long i = L(1), idx = L(2);
-      if (!used(i) || stale(sl[i]) || idx < 0 || (size_t)idx >= sl[i].base()->size()) return false;
+      if (!used(i) || !elemOk(sl[i], idx)) return false;
       (*sl[i].base())[(size_t)idx] = Codec<T>::enc(L(3));
       return true;
     }
